@@ -1,10 +1,170 @@
-(* Property C02 -- pg.List / pg.Dict behave as Python list / dict.  Only statements and [exact]; proofs live in
-   Proofs/PyList*.v, PyDict*.v, SymCoreC02*.v. *)
+(* Property C02 -- pg.List / pg.Dict behave as Python list / dict under every mutation history.
+   Only statements and [exact]; proofs live in Proofs/PyListFacts.v and Proofs/SymCoreC02*.v.
+
+   Vocabulary.  [erase : node -> pv] (Model/SymCoreSpec.v) forgets ids, parent / path annotations and flags; [evals its] /
+   [eitems its] are the erased item values / (key, value) pairs of a container (Proofs/SymCoreC02Read.v).  The SPECIFICATION
+   is Model/PyList.v / PyDict.v at element type pv with Python == [pv_pyeq] ([py_lstep], [py_dstep]); it is validated
+   against CPython's built-in list / dict on every run of the check.  [root_is st r tid k fl its]: root r of the forest is
+   the container (tid, k, fl) with items its; [clean its]: no item is the MISSING_VALUE marker; [permits sc fl]: the target
+   is not (treated as) sealed and writable through accessors (the permission side is C08's).  A plain argument is a
+   None / bool / int / str leaf or a literal list / dict of such values ([vplain], its value [pval]).
+
+   The _partial theorems are the full refinement statement for the setting of the property text -- ONE container (a root of
+   the forest) driven by a sequence of calls with plain Python arguments.  What they do not cover, and the correspondence
+   (model vs pg.List / pg.Dict on generated histories, every step) alone covers: targets nested below a root, arguments that
+   are existing symbolic nodes (adopted or copied), opaque objects as written values, l * n and l *= n on lists that hold
+   containers (needs uniqueness of node ids, Proofs/SymCoreIds.v), rebind with several / multi-key paths, d | m and m | d. *)
 From Coq Require Import ZArith NArith List Bool.
 From PG Require Import Common.Tactics Model.SymCoreDefs Model.SymCoreOps Model.SymCoreSpec Model.SymCoreC02
-     Proofs.SymCoreC02Base.
+     Proofs.SymCoreWF Proofs.SymCoreC02Base Proofs.SymCoreC02Read Proofs.SymCoreC02Frame Proofs.SymCoreC02Prim
+     Proofs.SymCoreC02List Proofs.SymCoreC02Dict Proofs.SymCoreC02Step Proofs.SymCoreC02Ext Proofs.PyListFacts
+     Proofs.SymCoreC02Slice Proofs.SymCoreC02WF Proofs.SymCoreC02Examples Proofs.SymCoreC02Summary.
+From PG Require Model.PyList Model.PyDict.
+Import ListNotations.
+Local Open Scope Z_scope.
 
-(* The operations C02 adds (slices, |) extend the base catalogue conservatively. *)
+(* The operations C02 adds (slices, |) extend the base catalogue conservatively: every SymCore theorem applies to Base steps. *)
 Theorem C02_extension_conservative : forall q st o, step2 q st (Base o) = step q st o.
 Proof. exact step2_base. Qed.
 Print Assumptions C02_extension_conservative.
+
+(* --- the specification itself ---------------------------------------------------------------------------------------------- *)
+(* slice(a, b, c).indices(n) normalises into the list: every position range(start, stop, step) names exists, no position twice *)
+Theorem C02_spec_slice_positions_in_bounds : forall a b c n s e st, 0 <= n -> PyList.slice_indices a b c n = Some (s, e, st) ->
+  Forall (fun i => 0 <= i < n) (PyList.slice_range s e st) /\ NoDup (PyList.slice_range s e st).
+Proof. exact c02_spec_slice_positions_in_bounds_proof. Qed.
+Print Assumptions C02_spec_slice_positions_in_bounds.
+
+(* --- C02_refines_python: one step ------------------------------------------------------------------------------------------- *)
+(* every list operation of the base catalogue: contents after = the Python call on the erased contents before; same ok /
+   error class (IndexError, KeyError, TypeError, ValueError); the value of the call agrees ([ret_agrees]: nothing, the removed
+   item by identity, or a new root list with the erased items Python returns) *)
+Theorem C02_refines_python_list_partial : forall q r tid fl, no_quirks q -> forall st its sc o lo,
+  wfs st -> root_is st r tid KList fl its -> clean its -> permits sc fl ->
+  vplain_lop (evals its) o = true -> vlop_of o = Some lo ->
+  exists its',
+    root_is (fst (step q st (mkSop sc (r, []) o))) r tid KList fl its' /\ clean its' /\
+    evals its' = PyList.lstate pv_pyeq (evals its) lo /\
+    out_class (snd (step q st (mkSop sc (r, []) o))) (py_lstep (evals its) lo) /\
+    exists ro st1, resolve_op st o = Some ro /\ exec q sc st (r, []) tid KList [] fl its ro = (st1, snd (step q st (mkSop sc (r, []) o))) /\
+                   match py_lstep (evals its) lo with inl (_, ret) => ret_agrees st1 (snd (step q st (mkSop sc (r, []) o))) ret | inr _ => True end.
+Proof. exact step_list_refines. Qed.
+Print Assumptions C02_refines_python_list_partial.
+
+(* every dict operation of the base catalogue (item assignment / deletion, pop, popitem, clear, setdefault, update, |=, copy) *)
+Theorem C02_refines_python_dict_partial : forall q r tid fl, no_quirks q -> forall st its sc o d,
+  wfs st -> root_is st r tid KDict fl its -> clean its -> permits sc fl ->
+  vplain_dop o = true -> vdop_of o = Some d ->
+  exists its',
+    root_is (fst (step q st (mkSop sc (r, []) o))) r tid KDict fl its' /\ clean its' /\
+    eitems its' = PyDict.dstate key_eqb pv_pyeq (eitems its) d /\
+    out_class (snd (step q st (mkSop sc (r, []) o))) (py_dstep (eitems its) d) /\
+    exists ro st1, resolve_op st o = Some ro /\ exec q sc st (r, []) tid KDict [] fl its ro = (st1, snd (step q st (mkSop sc (r, []) o))) /\
+                   match py_dstep (eitems its) d with inl (_, ret) => dret_agrees st1 (snd (step q st (mkSop sc (r, []) o))) ret | inr _ => True end.
+Proof. exact step_dict_refines. Qed.
+Print Assumptions C02_refines_python_dict_partial.
+
+(* slice assignment l[a:b:c] = vs and slice deletion del l[a:b:c], any start / stop / step (also None, negative, out of range, 0) *)
+Theorem C02_refines_python_slices_partial : forall q r tid fl st its sc x lo,
+  wfs st -> root_is st r tid KList fl its -> clean its -> permits sc fl ->
+  vplain_xop x = true -> vxlop_of x = Some lo ->
+  wfs (fst (step2 q st (Ext sc (r, []) x))) /\
+  exists its',
+    root_is (fst (step2 q st (Ext sc (r, []) x))) r tid KList fl its' /\ clean its' /\
+    evals its' = PyList.lstate pv_pyeq (evals its) lo /\
+    out_class (snd (step2 q st (Ext sc (r, []) x))) (py_lstep (evals its) lo).
+Proof. exact step_x_list_refines. Qed.
+Print Assumptions C02_refines_python_slices_partial.
+
+(* --- C02_history: every finite history on one container ---------------------------------------------------------------------- *)
+(* lists: base catalogue and slice operations interleaved in any order; [lhist2_ok] only says that every call has plain
+   arguments and is let through; [lhist2_py] is the plain list driven by the same calls *)
+Theorem C02_history_list_partial : forall q r tid fl, no_quirks q -> forall h st its,
+  wfs st -> root_is st r tid KList fl its -> clean its -> lhist2_ok fl (evals its) h ->
+  option_map erase (get_root (run_ops2 q st (on_root2 r h)) r) = Some (plist (lhist2_py (evals its) h)) /\
+  wfs (run_ops2 q st (on_root2 r h)).
+Proof. exact c02_history_list_partial_proof. Qed.
+Print Assumptions C02_history_list_partial.
+
+Theorem C02_history_dict_partial : forall q r tid fl, no_quirks q -> forall h st its,
+  wfs st -> root_is st r tid KDict fl its -> clean its -> dhist_ok fl (eitems its) h ->
+  option_map erase (get_root (run_ops q st (on_root r h)) r) = Some (PNode KDict (dhist_py (eitems its) h)).
+Proof. exact c02_history_dict_partial_proof. Qed.
+Print Assumptions C02_history_dict_partial.
+
+(* the hypotheses are satisfiable: a constructed forest, a nine-call list history and a five-call dict history *)
+Theorem C02_history_hypotheses_example :
+  wfs ex_state /\
+  (root_is ex_state 0 1%N KList default_flags ex_list_items /\ clean ex_list_items /\ lhist2_ok default_flags (evals ex_list_items) ex_list_history) /\
+  (root_is ex_state 1 3%N KDict default_flags ex_dict_items /\ clean ex_dict_items /\ dhist_ok default_flags (eitems ex_dict_items) ex_dict_history).
+Proof. exact c02_history_hypotheses_example_proof. Qed.
+Print Assumptions C02_history_hypotheses_example.
+
+(* --- C02_extensions: the four documented departures, each as an equation ----------------------------------------------------------- *)
+Theorem C02_extension_missing_deletes_key : forall q sc r tid fl st its a k st' out,
+  root_is st r tid KDict fl its -> clean its -> permits sc fl ->
+  exec q sc st (r, []) tid KDict [] fl its (DSet a k (RLeaf LMissing)) = (st', out) ->
+  out = Ok RNone /\ dwrote st r tid fl st' (PyDict.ddel key_eqb k (eitems its)).
+Proof. exact ext_missing_deletes. Qed.
+Print Assumptions C02_extension_missing_deletes_key.
+
+Theorem C02_extension_rebind_past_end_appends : forall q sc r tid fl st its z rv st' p c,
+  root_is st r tid KList fl its -> clean its -> treats_as_sealed sc fl = false -> storable_rv rv -> zlen its <= z ->
+  rebind_one q sc st (r, []) [KI z] rv = (st', p, c) ->
+  p = PUpd /\ wrote st r tid fl st' (evals its ++ [prv rv]).
+Proof. exact ext_rebind_past_end_appends. Qed.
+Print Assumptions C02_extension_rebind_past_end_appends.
+
+Theorem C02_extension_insertion_inserts : forall q sc r tid fl st its z rv st' p c,
+  root_is st r tid KList fl its -> clean its -> treats_as_sealed sc fl = false -> storable_rv rv ->
+  rebind_one q sc st (r, []) [KI z] (RIns rv) = (st', p, c) ->
+  p = PUpd /\ wrote st r tid fl st' (PyList.insert (evals its) z (prv rv)).
+Proof. exact ext_insertion_inserts. Qed.
+Print Assumptions C02_extension_insertion_inserts.
+
+Theorem C02_extension_plain_becomes_symbolic : forall q sc r st ck cid cfl tp ins k f lits nw st1,
+  formalize q sc st r ck cid cfl tp ins (RLit (LitNode k f true lits)) = (nw, st1) ->
+  erase nw = plit (LitNode k f true lits) /\ exists i f' its', nw = Node i k (Some cid) tp f' its'.
+Proof. exact ext_plain_becomes_symbolic. Qed.
+Print Assumptions C02_extension_plain_becomes_symbolic.
+
+(* --- C02_readback: the read API on a tree = the same read on its erasure -------------------------------------------------------------- *)
+(* x == plain, at any depth (lists in order, dicts as maps, numbers by value) *)
+Theorem C02_readback_equality : forall n p, node_pyeq n p = pv_pyeq (erase n) p.
+Proof. exact node_pyeq_erase. Qed.
+Print Assumptions C02_readback_equality.
+
+(* len, x[i], x[a:b:c], in, index, count, == on a list node *)
+Theorem C02_readback_list : forall i0 pa pt fl its,
+  let n := Node i0 KList pa pt fl its in
+  r_len n = PyList.len (evals its) /\
+  (forall i, py_lstep (evals its) (PyList.PLGet i) =
+             match r_getitem n i with Some c => inl (evals its, PyList.LrVal (erase c)) | None => inr PyList.PyIndexError end) /\
+  (forall a b c, py_lstep (evals its) (PyList.PLGetSlice a b c) =
+                 match r_getslice n a b c with Some cs => inl (evals its, PyList.LrList (map erase cs)) | None => inr PyList.PyValueError end) /\
+  (forall x, py_lstep (evals its) (PyList.PLContains x) = inl (evals its, PyList.LrBool (r_contains n x))) /\
+  (forall x, py_lstep (evals its) (PyList.PLIndex x) =
+             match r_find x its 0 with Some p => inl (evals its, PyList.LrInt (Z.of_nat p)) | None => inr PyList.PyValueError end) /\
+  (forall x, py_lstep (evals its) (PyList.PLCount x) = inl (evals its, PyList.LrInt (r_count n x))) /\
+  (forall o, py_lstep (evals its) (PyList.PLEq o) = inl (evals its, PyList.LrBool (node_pyeq n (plist o)))) /\
+  pvals (erase n) = evals its.
+Proof. exact c02_readback_list_proof. Qed.
+Print Assumptions C02_readback_list.
+
+(* len, keys, d[k], in, items, == on a dict node *)
+Theorem C02_readback_dict : forall i0 pa pt fl its,
+  let n := Node i0 KDict pa pt fl its in
+  py_dstep (eitems its) PyDict.PDLen = inl (eitems its, PyDict.DrInt (r_len n)) /\
+  py_dstep (eitems its) PyDict.PDKeys = inl (eitems its, PyDict.DrKeys (r_keys n)) /\
+  (forall k, py_dstep (eitems its) (PyDict.PDGet k) =
+             match r_dget n k with Some c => inl (eitems its, PyDict.DrVal (erase c)) | None => inr PyList.PyKeyError end) /\
+  (forall k, py_dstep (eitems its) (PyDict.PDContains k) = inl (eitems its, PyDict.DrBool (has_key k its))) /\
+  py_dstep (eitems its) PyDict.PDItems = inl (eitems its, PyDict.DrDict (pitems (erase n))) /\
+  (forall o, py_dstep (eitems its) (PyDict.PDEq o) = inl (eitems its, PyDict.DrBool (node_pyeq n (PNode KDict o)))).
+Proof. exact c02_readback_dict_proof. Qed.
+Print Assumptions C02_readback_dict.
+
+(* pg.to_json *)
+Theorem C02_readback_to_json : forall n, to_json n = pv_json (erase n).
+Proof. exact to_json_erase. Qed.
+Print Assumptions C02_readback_to_json.
